@@ -1067,6 +1067,14 @@ func propC08(run *Run, n int) {
 			run.Count("keyed-member:nested-list-hunk-with-context")
 			addC08Case(run, "SetKeys(id)-nested-list", a, dw)
 			addC08Case(run, "SetKeys(id)-nested-list", VArr(m1.Clone(), m2.Clone()), dw)
+			// TWO hunks in the same keyed member: the first edits its list (and succeeds), the second begins to edit the
+			// same list and fails on its after-context: the member must show the first edit only (or the patch must fail)
+			h1 := "( s SK { \"6964 #3ff0000000000000 } K\"74616773 I0 | V | \"61 | \"41 | \"62 )"
+			h2 := "( s SK { \"6964 #3ff0000000000000 } K\"74616773 I1 | \"41 | \"62 | \"63 | \"65 )"
+			if r.Chance(1, 2) {
+				h2 = "( s SK { \"6964 #3ff0000000000000 } K\"74616773 I1 | \"41 | \"62 | \"63 | \"64 )" // the second succeeds too
+			}
+			addC08Case(run, "SetKeys(id)-nested-list-two-hunks", a, joinHunks([]string{h1, h2}))
 		}
 		c := choices[r.Intn(len(choices))]
 		cfg := c.cfg()
